@@ -55,7 +55,11 @@ fn lab_point(rng: &mut Rng) -> [f64; 3] {
                 [rng.range(0.0, 100.0), 0.0, v]
             }
         }
-        2 => [rng.range(-1e4, 1e4), rng.range(-1e4, 1e4), rng.range(-1e4, 1e4)],
+        2 => {
+            // far beyond the gamut: any scale up to 1e40 (L negative too)
+            let m = 10f64.powf(rng.range(2.0, 40.0));
+            [rng.range(-m, m), rng.range(-m, m), rng.range(-m, m)]
+        }
         3 => {
             // chroma around 25 (the knee of G and R_C)
             let h = rng.range(0.0, 6.283185307179586);
@@ -133,7 +137,7 @@ pub fn run(s: &mut Session, ctx: &Ctx) {
             );
         }
         if let (Some(d76), Some(d00)) = (d76, d00) {
-            let finite_in = p.iter().chain(q.iter()).all(|x| x.abs() <= 1e4);
+            let finite_in = p.iter().chain(q.iter()).all(|x| x.abs() <= 1e40);
             if finite_in {
                 s.check(d76.is_finite() && d76 >= 0.0, "cie76-finite-nonneg", "delta_e::cie76", inp, || format!("{:?}", d76));
                 s.check(d00.is_finite() && d00 >= 0.0, "ciede2000-finite-nonneg", "delta_e::ciede2000", inp, || format!("{:?}", d00));
@@ -154,6 +158,15 @@ pub fn run(s: &mut Session, ctx: &Ctx) {
                 s.check(d76 <= (a + b) * (1.0 + 1e-12) + 1e-12, "cie76-triangle", "delta_e::cie76", || format!("{} {} via {}", show(p), show(q), show(r)), || format!("{:?} > {:?} + {:?}", d76, a, b));
             }
         }
+    }
+    // the IEEE range: intermediate powers overflow long before the distance itself does
+    for (p, q) in [([50.0, 1.1e44, 0.0], [50.0, 1.1e44, 0.0]), ([50.0, 1.1e44, 0.0], [50.0, 0.0, 1.1e44]), ([50.0, 3e44, 0.0], [50.0, 10.0, 10.0]), ([1.4e154, 0.0, 0.0], [0.0, 0.0, 0.0])] {
+        let d = pastel::delta_e::ciede2000(&ops::lab(p[0], p[1], p[2]), &ops::lab(q[0], q[1], q[2]));
+        s.check(d.is_finite() && d >= 0.0 && (p != q || d == 0.0), "finite-at-astronomical-coordinates", "delta_e::ciede2000", || format!("{} {}", show(p), show(q)), || format!("{:?}", d));
+    }
+    for (p, q) in [([50.0, 1e154, 0.0], [50.0, 0.0, 1e154]), ([1e200, 0.0, 0.0], [0.0, 0.0, 0.0])] {
+        let d = pastel::delta_e::cie76(&ops::lab(p[0], p[1], p[2]), &ops::lab(q[0], q[1], q[2]));
+        s.check(d.is_finite() && d >= 0.0, "finite-at-astronomical-coordinates", "delta_e::cie76", || format!("{} {}", show(p), show(q)), || format!("{:?}", d));
     }
     // pairs of 8-bit colours through Color::distance_* (grays and primaries)
     let cols: Vec<pastel::Color> = crate::gen::structured_colors();
